@@ -307,9 +307,34 @@ def known_key(rec):
         tie = rec.get("checker_tie")
         if tie == "accepted: same typed program":
             return "c05-literal-width-divergence"
-        if tie in (None, "outside-model", "model-out-of-fuel", "model-job-failed") and BOUND_LITERAL.search(rec.get("src", "")):
+        if tie in (None, "outside-model", "model-out-of-fuel", "model-job-failed") and binds_unsuffixed(rec.get("src", "")):
             return "c05-literal-width-divergence"      # outside the checker model: the syntactic shape of the finding
     return None
+
+
+def binds_unsuffixed(src):
+    """a `let` / `for` binding or a match scrutinee whose expression (up to its `;` / body at nesting depth 0, nested
+    blocks included) holds an unsuffixed number: the syntactic shape of the recorded finding"""
+    src = re.sub(r"//[^\n]*", "", src)
+    for m in re.finditer(r"\b(let|for|match)\b", src):
+        i, depth, start = m.end(), 0, m.end()
+        kind = m.group(1)
+        while i < len(src):
+            c = src[i]
+            if c in "([{":
+                if kind != "let" and c == "{" and depth == 0:
+                    break                      # the body of the for / the arms of the match
+                depth += 1
+            elif c in ")]}":
+                if depth == 0:
+                    break
+                depth -= 1
+            elif c == ";" and depth == 0:
+                break
+            i += 1
+        if UNSUFFIXED.search(src[start:i]):
+            return True
+    return False
 
 
 # a `let` / `for` binding whose right-hand side holds an unsuffixed number (the shape of the recorded finding)
